@@ -6,7 +6,7 @@ T: N goroutines on one classifier, inputs that make several goroutines score the
 import os, re, time
 from lib import vlib
 from lib.vlib import tlc, tlc_require_ok, go_overlay_test, read_ndjson, sub
-from checks.v2common import Acc, V2_SOURCES, DEV_CONSTANTS
+from checks.v2common import Acc, V2_SOURCES, DEV_CONSTANTS, tracecfg_legs
 from checks.v1common import validate
 PID = "C09"
 def classify(ev):
@@ -18,6 +18,7 @@ def run():
     if nv.violated != "NoRace":
         raise vlib.Inconclusive("sharing the corpus array with the diff library did not violate NoRace: " + nv.tail[-1500:])
     acc.tlc.append({"cfg": "V2ConcurrentAsBuilt.cfg", "expected_violation": "NoRace"})
+    tracecfg_legs(v, acc)    # the tracing switches every concurrent call reads: asking must not write (V2Trace)
     env = {"VERIF_GOROUTINES": "64" if th else "8", "VERIF_ROUNDS": "6" if th else "2", "VERIF_SEED": str(vlib.SEED), "VERIF_TIER": vlib.TIER}
     shared = None
     for race in (False, True):
